@@ -7,7 +7,6 @@ package main
 
 import (
 	"fmt"
-	"math"
 
 	"github.com/tuneinsight/lattigo/v6/ring"
 
@@ -152,6 +151,7 @@ func ternaryKYScenario(P float64) engine.Scenario {
 		const total = 1 << 16
 		tol := total >> 12 // 2^-12 in units of 2^-16
 		want := map[int64]float64{0: (1 - P) * total, 1: P / 2 * total, -1: P / 2 * total}
+		c.Note("P=%v montgomery=%v: of 65536 prefixes 0:%d +1:%d -1:%d undecided:%d (contract %.1f / %.1f / %.1f)", P, mont, mass[0], mass[1], mass[-1], undecided, want[0], want[1], want[-1])
 		if undecided > total>>10 {
 			c.Fail("C17/ternary/P/knuth-yao-undecided-mass", "P=%v: %d of 65536 16-bit prefixes do not decide the first coefficient (at most 2^-14 of the mass can be undecided)", P, undecided)
 			return
@@ -421,11 +421,12 @@ func ternarySequenceScenario(kind int, depth int) engine.Scenario {
 		n := 1 + c.Choose(depth, "length")
 		prev := int64(0)
 		for step := 0; step < n; step++ {
-			op := c.Choose(len(terOps), "op")
-			if X.H != 0 && (op == 2 || op == 6) {
-				c.Skip("ReadAndAdd of the fixed-weight sampler is judged in ternary/ReadAndAdd (known input class)")
-				return
+			// ReadAndAdd of the fixed-weight sampler is judged in ternary/ReadAndAdd (known input class), not here
+			allowed := []int{0, 1, 2, 3, 4, 5, 6}
+			if X.H != 0 {
+				allowed = []int{0, 1, 3, 4, 5}
 			}
+			op := allowed[c.Choose(len(allowed), "op")]
 			var got, twin ring.Poly
 			level, add := L, false
 			switch op {
@@ -487,5 +488,3 @@ func ternarySequenceScenario(kind int, depth int) engine.Scenario {
 		c.Outcome(name, envA.off)
 	}}
 }
-
-var _ = math.Abs
